@@ -309,3 +309,9 @@ package layout
 //@   property C15
 //@   flags callsites
 //@   callsite Repeat(s, n) requires numbered_items_indented_past_the_parent_marker: s == " " && n == len(indent)
+
+// ---- C09: a finished list keeps its items: the accumulator of the next list starts from a fresh slice, never from a
+// reslice of the one just handed over (x = x[:0] would make the two lists share a backing array) ----
+//@ func (*ListDetector) groupIntoLists
+//@   property C09
+//@   flags frameonly, noalias
